@@ -1,6 +1,87 @@
-(* C03: placeholder until the proofs are merged; a concrete run of the model. *)
+(* C03: Result blocks mirror the definitions in the source.
+
+   The three block instructions implement a stack of open blocks with field maps: SETFIELD creates or
+   overwrites exactly one key of the innermost block; ENDBLOCK stores the finished child under type /
+   type.name in its parent (the duplicate error iff the key exists) or appends it to the result list at
+   toplevel; GETFIELD reads TYPE / NAME of the innermost block, else the nearest enclosing block that
+   has the field.  Variables never enter a field map (they live on the operand stack: GETLOCAL/SETLOCAL
+   do not touch bstack -- see exec_op).  That the compiler emits exactly these instructions for `def`
+   and field assignments is part of T2 (tested by t2check, proof in progress). *)
+From RecordUpdate Require Import RecordSet.
+Import RecordSetNotations.
+From BCL Require Import Model.Vm Proofs.VmSpecProofs.
+Open Scope N_scope.
+
+Theorem C03_setfield : forall p m i m1 name t n fs up a stk,
+  read_uvarint m = Some (i, m1) -> get_const p i = Some (VStr name) ->
+  bstack m = VBlock t n fs :: up -> stack m = a :: stk ->
+  exec_op p opSETFIELD m = (m1 <| bstack := VBlock t n (fields_set name a fs) :: up |>, VOk).
+Proof. first [exact VmSpecProofs.C03_setfield | apply VmSpecProofs.C03_setfield]. Qed.
+Print Assumptions C03_setfield.
+
+(* field maps: the written key holds the new value, every other key is untouched, keys stay unique *)
+Theorem C03_setfield_fields : forall name a fs,
+  fields_get name (fields_set name a fs) = Some a
+  /\ (forall k, k <> name -> fields_get k (fields_set name a fs) = fields_get k fs)
+  /\ (NoDup (keys fs) -> NoDup (keys (fields_set name a fs))).
+Proof. first [exact VmSpecProofs.C03_setfield_fields | apply VmSpecProofs.C03_setfield_fields]. Qed.
+Print Assumptions C03_setfield_fields.
+
+Theorem C03_endblock_nested : forall p m t n fs pt pn pfs up,
+  bstack m = VBlock t n fs :: VBlock pt pn pfs :: up ->
+  exec_op p opENDBLOCK m =
+  match fields_get (block_key t n) pfs with
+  | Some _ => (m <| btos := btos m - 1 |>,
+               VErr (pos_at p (pc m)) (bs "child " ++ block_key t n ++ bs " duplicate at parent"))
+  | None => (m <| bstack := VBlock pt pn (fields_set (block_key t n) (VBlock t n fs) pfs) :: up |>
+               <| btos := btos m - 1 |>, VOk)
+  end.
+Proof. first [exact VmSpecProofs.C03_endblock_nested | apply VmSpecProofs.C03_endblock_nested]. Qed.
+Print Assumptions C03_endblock_nested.
+
+Theorem C03_endblock_duplicate_iff : forall p m t n fs pt pn pfs up,
+  bstack m = VBlock t n fs :: VBlock pt pn pfs :: up ->
+  (snd (exec_op p opENDBLOCK m) <> VOk <-> In (block_key t n) (keys pfs))
+  /\ (snd (exec_op p opENDBLOCK m) <> VOk ->
+      snd (exec_op p opENDBLOCK m) =
+      VErr (pos_at p (pc m)) (bs "child " ++ block_key t n ++ bs " duplicate at parent")).
+Proof. first [exact VmSpecProofs.C03_endblock_duplicate_iff | apply VmSpecProofs.C03_endblock_duplicate_iff]. Qed.
+Print Assumptions C03_endblock_duplicate_iff.
+
+Theorem C03_endblock_toplevel : forall p m t n fs,
+  bstack m = [VBlock t n fs] ->
+  exec_op p opENDBLOCK m = (m <| bstack := [] |> <| btos := 0 |> <| result := VBlock t n fs :: result m |>, VOk).
+Proof. first [exact VmSpecProofs.C03_endblock_toplevel | apply VmSpecProofs.C03_endblock_toplevel]. Qed.
+Print Assumptions C03_endblock_toplevel.
+
+Theorem C03_getfield : forall p m i m1 name t n fs up,
+  tos m <> stackSize ->
+  read_uvarint m = Some (i, m1) -> get_const p i = Some (VStr name) ->
+  bstack m = VBlock t n fs :: up ->
+  exec_op p opGETFIELD m =
+  match lookup_field name (bstack m) with
+  | Some v => (push v m1, VOk)
+  | None => (m1, VErr (pos_at p (pc m1)) (bs "identifier '" ++ name ++ bs "' not resolved as var or field"))
+  end.
+Proof. first [exact VmSpecProofs.C03_getfield | apply VmSpecProofs.C03_getfield]. Qed.
+Print Assumptions C03_getfield.
+
+(* the nearest enclosing block that has the field *)
+Theorem C03_block_find_spec : forall k bstk v,
+  block_find k bstk = Some v <->
+  exists pre t n fs post,
+    bstk = pre ++ VBlock t n fs :: post /\ fields_get k fs = Some v /\
+    Forall (fun b => match b with VBlock _ _ fs' => fields_get k fs' = None | _ => True end) pre.
+Proof. first [exact VmSpecProofs.C03_block_find_spec | apply VmSpecProofs.C03_block_find_spec]. Qed.
+Print Assumptions C03_block_find_spec.
+
 From BCL Require Import Model.Api.
 Example C03_example :
-  pr_ok (parse_whole (bs "input") (bs "var x = 1 print x + 2 * 3")) = true.
-Proof. vm_compute. reflexivity. Qed.
-Print Assumptions C03_example.
+  match snd (interpret (bs "input") (bs "def a ""n"" { x = 1 var v = 2 def b { y = x + v } def b ""m"" { z = TYPE + NAME } x = 3 } def a { } print 1/0 def c { }") false false false) with
+  | IRun _ rr => length (rr_blocks rr) = 2%nat /\ (match rr_res rr with VErr _ _ => True | _ => False end)
+                 /\ match rr_blocks rr with
+                    | VBlock _ _ fs :: _ => map fst fs = [bs "x"; bs "b"; bs "b.m"]
+                    | _ => False end
+  | _ => False
+  end.
+Proof. vm_compute. repeat split; reflexivity. Qed.
